@@ -19,10 +19,14 @@ import (
 	"github.com/ElrondNetwork/elrond-go/crypto/signing/multisig"
 	"github.com/ElrondNetwork/elrond-go/data"
 	dataBlock "github.com/ElrondNetwork/elrond-go/data/block"
+	"github.com/ElrondNetwork/elrond-go/dataRetriever"
+	"github.com/ElrondNetwork/elrond-go/fallback"
 	"github.com/ElrondNetwork/elrond-go/hashing"
 	"github.com/ElrondNetwork/elrond-go/hashing/blake2b"
 	"github.com/ElrondNetwork/elrond-go/marshal"
+	"github.com/ElrondNetwork/elrond-go/process"
 	"github.com/ElrondNetwork/elrond-go/process/mock"
+	"github.com/ElrondNetwork/elrond-go/storage"
 	"github.com/ElrondNetwork/elrond-go/testscommon"
 	kit "github.com/ElrondNetwork/elrond-go/verifkit"
 	"pgregory.net/rapid"
@@ -209,6 +213,12 @@ func (f *verifC17Fixture) signViaMultiSigner(group []int, signers []int, msg []b
 }
 
 func (f *verifC17Fixture) verifier(group []int, fallback bool) (*HeaderSigVerifier, error) {
+	return f.verifierWith(group, &testscommon.FallBackHeaderValidatorStub{
+		ShouldApplyFallbackValidationCalled: func(_ data.HeaderHandler) bool { return fallback },
+	})
+}
+
+func (f *verifC17Fixture) verifierWith(group []int, fallbackValidator process.FallbackHeaderValidator) (*HeaderSigVerifier, error) {
 	pubs := make([]string, len(group))
 	for i, g := range group {
 		pubs[i] = f.pubs[g]
@@ -221,12 +231,10 @@ func (f *verifC17Fixture) verifier(group []int, fallback bool) (*HeaderSigVerifi
 				return pubs, nil
 			},
 		},
-		MultiSigVerifier:  f.baseMS,
-		SingleSigVerifier: &mock.SignerMock{},
-		KeyGen:            f.kg,
-		FallbackHeaderValidator: &testscommon.FallBackHeaderValidatorStub{
-			ShouldApplyFallbackValidationCalled: func(_ data.HeaderHandler) bool { return fallback },
-		},
+		MultiSigVerifier:        f.baseMS,
+		SingleSigVerifier:       &mock.SignerMock{},
+		KeyGen:                  f.kg,
+		FallbackHeaderValidator: fallbackValidator,
 	})
 }
 
@@ -301,6 +309,11 @@ func (vc *verifC17Case) String() string {
 }
 
 func verifC17GenCase(rt *rapid.T, maxN int) *verifC17Case {
+	return verifC17GenCaseOdds(rt, maxN, 7)
+}
+
+// fallbackOdds: the signer count is aimed at the fallback threshold in 1 of fallbackOdds+1 cases
+func verifC17GenCaseOdds(rt *rapid.T, maxN int, fallbackOdds int) *verifC17Case {
 	vc := &verifC17Case{}
 	switch rapid.IntRange(0, 19).Draw(rt, "nKind") { // low draws = simple cases, so that shrinking simplifies
 	case 18:
@@ -319,7 +332,7 @@ func verifC17GenCase(rt *rapid.T, maxN int) *verifC17Case {
 	for i := 0; i < n; i++ {
 		vc.group = append(vc.group, (off+i*stride)%verifC17PoolSize)
 	}
-	vc.fallback = rapid.IntRange(0, 7).Draw(rt, "fallback") == 7
+	vc.fallback = rapid.IntRange(0, fallbackOdds).Draw(rt, "fallback") == fallbackOdds
 	vc.thr = verifC17Threshold(n, vc.fallback)
 	t := vc.thr
 
@@ -1290,5 +1303,253 @@ func TestVerifC17_FixtureHonestAcceptedLarge(t *testing.T) {
 		if err = hsv.VerifySignature(hdr); err != nil {
 			t.Fatalf("fixture: honest header with n=%d, %d signers, bitmap %x rejected: %v", n, len(signers), bm, err)
 		}
+	}
+}
+
+// ---------------------------------------------------------------------------------------------------------------
+// The REAL fallback validator (fallback.NewFallbackHeaderValidator, wired into the HeaderSigVerifier exactly as
+// factory/processComponents.go does: headers pool, internal marshalizer, storage service) instead of the stub.
+//
+// Documented rule (fallback/headerValidator.go, core.MaxRoundsWithoutCommittedStartInEpochBlock = 50 "maximum rounds
+// to wait for start in epoch block to be committed, before a special action to be applied"): the relaxed threshold
+// floor(n/2)+1 may be applied only to a metachain header that is a start-of-epoch block, whose previous header
+// (PrevHash) is known as a meta block (headers pool, else MetaBlockUnit storage) and whose round is at least 50 rounds
+// AFTER the round of that previous header. In every other situation - shard header, ordinary meta block, previous header
+// unknown or not a meta block, round difference negative, zero or below 50 - the 2/3+1 quorum is required.
+//
+// VerifySignature is called on headers received from the network (process/block/interceptedBlocks: InterceptedHeader /
+// InterceptedMetaHeader.CheckValidity -> integrity verifier -> headerSigVerifier.VerifySignature), so every field of the
+// header, its round and PrevHash included, is chosen by the sender.
+
+const verifC17MaxRoundsWithoutStartOfEpoch = 50 // the documented constant, written out (not read from package core)
+
+func TestVerifC17_QuorumRealFallback(t *testing.T) {
+	f := verifC17GetFixture()
+	if f.initErr != nil {
+		t.Fatalf("fixture: %v", f.initErr)
+	}
+	kit.Run(t, "C17", kit.Budget{Quick: 600, Thorough: 6000},
+		"group/signers/bitmap as in the small-group test (n=1..24) with the signer count aimed at the fallback threshold in half of the cases; REAL fallback validator over a headers-pool stub and a storage stub; header kind = meta start-of-epoch (1-2 LastFinalizedHeaders) / meta ordinary / shard start-of-epoch (EpochStartMetaHash set) / shard ordinary; previous header (PrevHash) = meta block in the pool / meta block only in MetaBlockUnit storage / unknown / a shard header in the pool (and nothing, or a meta block, in storage); round - previous round from {-(1..1000), -1, 0, 1, 49, 50, 51, 50+(1..1000), uniform -60..110}; oracle threshold = floor(n/2)+1 only for a meta start-of-epoch header whose previous meta block is known and at least 50 rounds older, floor(2n/3)+1 otherwise; non-trivial = |S| in {t-1,t} for the oracle threshold t, bitmap of the expected length with the proposer bit set",
+		func(rt *rapid.T, c *kit.Case) {
+			vc := verifC17GenCaseOdds(rt, 24, 1)
+			aimedAtFallback := vc.fallback
+
+			// the previous header and the round difference
+			prevRound := rapid.Uint64Range(0, 1<<40).Draw(rt, "prevRound")
+			var diff int64
+			switch rapid.IntRange(0, 9).Draw(rt, "roundDiffKind") {
+			case 0:
+				diff = 1
+			case 1:
+				diff = -int64(rapid.IntRange(1, 1000).Draw(rt, "roundsBefore"))
+			case 2:
+				diff = -1
+			case 3:
+				diff = 0
+			case 4:
+				diff = verifC17MaxRoundsWithoutStartOfEpoch - 1
+			case 5:
+				diff = verifC17MaxRoundsWithoutStartOfEpoch
+			case 6:
+				diff = verifC17MaxRoundsWithoutStartOfEpoch + 1
+			case 7:
+				diff = verifC17MaxRoundsWithoutStartOfEpoch + int64(rapid.IntRange(1, 1000).Draw(rt, "roundsAfter"))
+			default:
+				diff = int64(rapid.IntRange(-60, 110).Draw(rt, "roundDiff"))
+			}
+			if diff < 0 && prevRound < uint64(-diff) {
+				prevRound = uint64(-diff)
+			}
+			round := uint64(int64(prevRound) + diff)
+			prevHash := rapid.SliceOfN(rapid.Byte(), 1, 32).Draw(rt, "prevHash")
+			prevMeta := &dataBlock.MetaBlock{Nonce: rapid.Uint64Range(0, 1<<40).Draw(rt, "prevNonce"), Round: prevRound,
+				Epoch: rapid.Uint32Range(0, 3).Draw(rt, "prevEpoch"), RandSeed: []byte("previous seed"), ChainID: []byte("1"),
+				AccumulatedFees: big.NewInt(0), AccumulatedFeesInEpoch: big.NewInt(0), DeveloperFees: big.NewInt(0), DevFeesInEpoch: big.NewInt(0)}
+
+			var inPool data.HeaderHandler
+			var inStorage *dataBlock.MetaBlock
+			prevKnownAsMeta := false
+			prevKind := ""
+			switch rapid.IntRange(0, 6).Draw(rt, "prevWhere") {
+			case 0, 1, 2:
+				prevKind, inPool, prevKnownAsMeta = "meta-in-pool", prevMeta, true
+			case 3:
+				prevKind, inStorage, prevKnownAsMeta = "meta-in-storage", prevMeta, true
+			case 4:
+				prevKind = "unknown"
+			case 5:
+				prevKind, inPool = "shard-header-in-pool", &dataBlock.Header{Round: prevRound, ShardID: 1}
+			default:
+				// the pool answers with a header of the wrong kind, the storage has the meta block
+				prevKind, inPool, inStorage, prevKnownAsMeta = "shard-header-in-pool+meta-in-storage", &dataBlock.Header{Round: prevRound, ShardID: 1}, prevMeta, true
+			}
+			headersPool := &mock.HeadersCacherStub{
+				GetHeaderByHashCalled: func(hash []byte) (data.HeaderHandler, error) {
+					if inPool != nil && bytes.Equal(hash, prevHash) {
+						return inPool, nil
+					}
+					return nil, fmt.Errorf("header not in pool")
+				},
+			}
+			storageService := &mock.ChainStorerMock{
+				GetStorerCalled: func(unit dataRetriever.UnitType) storage.Storer {
+					return &testscommon.StorerStub{
+						GetCalled: func(key []byte) ([]byte, error) {
+							if unit == dataRetriever.MetaBlockUnit && inStorage != nil && bytes.Equal(key, prevHash) {
+								return f.marsh.Marshal(inStorage)
+							}
+							return nil, fmt.Errorf("key not found")
+						},
+					}
+				},
+			}
+			realFallback, err := fallback.NewFallbackHeaderValidator(headersPool, f.marsh, storageService)
+			if err != nil {
+				rt.Fatalf("fixture: fallback validator: %v", err)
+			}
+
+			// the header
+			bytesGen := rapid.SliceOfN(rapid.Byte(), 1, 32)
+			var hdr data.HeaderHandler
+			hdrKind := ""
+			isMetaStartOfEpoch := false
+			switch kind := rapid.IntRange(0, 6).Draw(rt, "headerKind"); {
+			case kind <= 4: // meta block; 0..3 start of epoch
+				mb := &dataBlock.MetaBlock{
+					Nonce: prevMeta.Nonce + 1, Epoch: prevMeta.Epoch, Round: round, PrevHash: prevHash,
+					PrevRandSeed: bytesGen.Draw(rt, "prevRandSeed"), RandSeed: bytesGen.Draw(rt, "randSeed"), RootHash: bytesGen.Draw(rt, "rootHash"),
+					LeaderSignature: bytesGen.Draw(rt, "leaderSig"), ChainID: []byte("1"),
+					AccumulatedFees: big.NewInt(0), AccumulatedFeesInEpoch: big.NewInt(0), DeveloperFees: big.NewInt(0), DevFeesInEpoch: big.NewInt(0),
+					EpochStart: dataBlock.EpochStart{Economics: dataBlock.Economics{
+						TotalSupply: big.NewInt(0), TotalToDistribute: big.NewInt(0), TotalNewlyMinted: big.NewInt(0),
+						RewardsPerBlock: big.NewInt(0), NodePrice: big.NewInt(0), RewardsForProtocolSustainability: big.NewInt(0)}},
+				}
+				hdrKind = "meta-ordinary"
+				if kind <= 3 {
+					hdrKind, isMetaStartOfEpoch = "meta-start-of-epoch", true
+					mb.Epoch = prevMeta.Epoch + 1
+					for i := rapid.IntRange(1, 2).Draw(rt, "nLastFinalized"); i > 0; i-- {
+						mb.EpochStart.LastFinalizedHeaders = append(mb.EpochStart.LastFinalizedHeaders, dataBlock.EpochStartShardData{
+							ShardID: uint32(i - 1), Epoch: prevMeta.Epoch, Round: prevRound, Nonce: 7, HeaderHash: []byte("shard header hash"),
+							RootHash: []byte("root"), FirstPendingMetaBlock: []byte("first pending"), LastFinishedMetaBlock: []byte("last finished")})
+					}
+				}
+				hdr = mb
+			default:
+				sh := &dataBlock.Header{
+					Nonce: prevMeta.Nonce + 1, Epoch: prevMeta.Epoch, Round: round, ShardID: rapid.Uint32Range(0, 2).Draw(rt, "shard"), PrevHash: prevHash,
+					PrevRandSeed: bytesGen.Draw(rt, "prevRandSeed"), RandSeed: bytesGen.Draw(rt, "randSeed"), RootHash: bytesGen.Draw(rt, "rootHash"),
+					LeaderSignature: bytesGen.Draw(rt, "leaderSig"), ChainID: []byte("1"), AccumulatedFees: big.NewInt(0), DeveloperFees: big.NewInt(0),
+				}
+				hdrKind = "shard-ordinary"
+				if kind == 5 {
+					hdrKind = "shard-start-of-epoch"
+					sh.EpochStartMetaHash = []byte("epoch start meta hash")
+				}
+				hdr = sh
+			}
+
+			// oracle: may the relaxed threshold be applied to this header?
+			fallbackAllowed := isMetaStartOfEpoch && prevKnownAsMeta && diff >= verifC17MaxRoundsWithoutStartOfEpoch
+			vc.fallback = fallbackAllowed
+			vc.thr = verifC17Threshold(vc.n, fallbackAllowed)
+			vc.shape = fmt.Sprintf("header=%s previous=%s round=%d previousRound=%d (difference %d) signer-count-aimed-at-fallback-threshold=%v",
+				hdrKind, prevKind, round, prevRound, diff, aimedAtFallback)
+
+			hash, err := f.signedHash(hdr)
+			if err != nil {
+				rt.Fatalf("fixture: header hash: %v", err)
+			}
+			sig, err := f.sign(vc.group, vc.signers, hash)
+			if err != nil {
+				rt.Fatalf("fixture: signing: %v", err)
+			}
+			contributors := len(vc.signers)
+			if vc.tampered {
+				hdr.SetNonce(hdr.GetNonce() + 1)
+				contributors = 0
+			}
+			hdr.SetSignature(sig)
+			hdr.SetPubKeysBitmap(append([]byte(nil), vc.bitmap...))
+			hsv, err := f.verifierWith(vc.group, realFallback)
+			if err != nil {
+				rt.Fatalf("fixture: verifier: %v", err)
+			}
+
+			c.Class("header:" + hdrKind)
+			c.Class("previous:" + prevKind)
+			switch {
+			case diff < 0:
+				c.Class("round-difference:negative")
+			case diff == 0:
+				c.Class("round-difference:zero")
+			case diff < verifC17MaxRoundsWithoutStartOfEpoch:
+				c.Class("round-difference:1..49")
+			case diff == verifC17MaxRoundsWithoutStartOfEpoch:
+				c.Class("round-difference:50")
+			default:
+				c.Class("round-difference:>50")
+			}
+			if fallbackAllowed {
+				c.Class("oracle:fallback-threshold-allowed")
+			}
+			if k := len(vc.signers); !fallbackAllowed && k >= verifC17Threshold(vc.n, true) && k < vc.thr {
+				c.Class("signers-between-fallback-and-normal-threshold-while-fallback-not-allowed")
+				if isMetaStartOfEpoch {
+					c.Class("…of which meta start-of-epoch headers")
+				}
+			}
+			verifC17Judge(c, hsv, hdr, vc, contributors)
+		})
+}
+
+// Fixture sanity for the real fallback validator: in the documented fallback situation (meta start-of-epoch header, previous
+// meta block known, 50 rounds older) a header signed by floor(n/2)+1 members is accepted - otherwise the class
+// "fallback allowed" of TestVerifC17_QuorumRealFallback would be vacuous. A failure is a fixture failure (INCONCLUSIVE).
+func TestVerifC17_FixtureRealFallbackApplies(t *testing.T) {
+	kit.Silence()
+	f := verifC17GetFixture()
+	if f.initErr != nil {
+		t.Fatalf("fixture: %v", f.initErr)
+	}
+	n := 10
+	group := make([]int, n)
+	for i := range group {
+		group[i] = (5 + 7*i) % verifC17PoolSize
+	}
+	prevHash := []byte("previous meta block hash")
+	pool := &mock.HeadersCacherStub{GetHeaderByHashCalled: func(hash []byte) (data.HeaderHandler, error) {
+		if bytes.Equal(hash, prevHash) {
+			return &dataBlock.MetaBlock{Round: 1000}, nil
+		}
+		return nil, fmt.Errorf("not found")
+	}}
+	realFallback, err := fallback.NewFallbackHeaderValidator(pool, f.marsh, &mock.ChainStorerMock{})
+	if err != nil {
+		t.Fatalf("fixture: %v", err)
+	}
+	signers := []int{0, 1, 2, 3, 4, 5} // floor(10/2)+1
+	hdr := &dataBlock.MetaBlock{Nonce: 9, Epoch: 2, Round: 1000 + verifC17MaxRoundsWithoutStartOfEpoch, PrevHash: prevHash, PrevRandSeed: []byte("seed"),
+		RandSeed: []byte("rnd"), ChainID: []byte("1"), AccumulatedFees: big.NewInt(0), AccumulatedFeesInEpoch: big.NewInt(0),
+		DeveloperFees: big.NewInt(0), DevFeesInEpoch: big.NewInt(0),
+		EpochStart: dataBlock.EpochStart{LastFinalizedHeaders: []dataBlock.EpochStartShardData{{ShardID: 0}}, Economics: dataBlock.Economics{
+			TotalSupply: big.NewInt(0), TotalToDistribute: big.NewInt(0), TotalNewlyMinted: big.NewInt(0),
+			RewardsPerBlock: big.NewInt(0), NodePrice: big.NewInt(0), RewardsForProtocolSustainability: big.NewInt(0)}}}
+	hash, err := f.signedHash(hdr)
+	if err != nil {
+		t.Fatalf("fixture: %v", err)
+	}
+	sig, err := f.sign(group, signers, hash)
+	if err != nil {
+		t.Fatalf("fixture: %v", err)
+	}
+	hdr.Signature = sig
+	hdr.PubKeysBitmap = []byte{0x3f, 0x00}
+	hsv, err := f.verifierWith(group, realFallback)
+	if err != nil {
+		t.Fatalf("fixture: %v", err)
+	}
+	if err = hsv.VerifySignature(hdr); err != nil {
+		t.Fatalf("fixture: start-of-epoch meta block 50 rounds after its previous block, signed by 6 of 10, rejected: %v", err)
 	}
 }
